@@ -294,6 +294,30 @@ func (w *W) value(a *scen.Arg) any {
 			return slog.Duration(a.Key, v)
 		case time.Time:
 			return slog.Time(a.Key, v)
+		case int8:
+			return slog.Int8(a.Key, v)
+		case int16:
+			return slog.Int16(a.Key, v)
+		case int32:
+			return slog.Int32(a.Key, v)
+		case int64:
+			return slog.Numeric(a.Key, v)
+		case uint:
+			return slog.Uint(a.Key, v)
+		case uint8:
+			return slog.Uint8(a.Key, v)
+		case uint16:
+			return slog.Uint16(a.Key, v)
+		case uint32:
+			return slog.Uint32(a.Key, v)
+		case uint64:
+			return slog.Uint64(a.Key, v)
+		case float32:
+			return slog.Float32(a.Key, v)
+		case complex64:
+			return slog.Complex64(a.Key, v)
+		case complex128:
+			return slog.Complex128(a.Key, v)
 		default:
 			return slog.Any(a.Key, v)
 		}
